@@ -141,6 +141,27 @@ def fixed_case(rng, base, idx):
         return recipe, {'class': 'line-longer-than-1MiB-no-constraint',
                         'data': data, 'policy': None, 'wide': False,
                         'global': False, 'nfiles': 1}
+    elif idx == 7:
+        # a TYPED field on an optional group that does not take part in the
+        # match on some lines (value None must stay None, never be cast):
+        # deterministic since the random typed definitions meet such lines
+        # only by chance (seeded C13-7)
+        tdef = {'kind': 'simple', 'patterns': [r'^\S+ \S+ (\w+) (\d+)?'],
+                'tag': 's0', 'hint': None, 'store': True, 'constraints': [],
+                'field_types': {'word': 'str',
+                                'num': rng.choice(['int', 'float'])}}
+        data = (b'2022-01-10 00:00:00 alpha 1\n'
+                b'2022-01-10 01:00:00 beta x\n'
+                b'2022-01-10 02:00:00 gamma \n'
+                b'2022-01-10 03:00:00 delta 0\n')
+        skrun.materialise(d, {'x.log': data})
+        run = {'global': None, 'decode_errors': None,
+               'max_parallel_tasks': 4, 'adds': [[0, 'x.log', True]],
+               'new_searcher': True}
+        recipe = {'dir': d, 'constraints': [], 'defs': [tdef], 'runs': [run]}
+        return recipe, {'class': 'typed-field-on-absent-optional-group',
+                        'data': data, 'policy': None, 'wide': False,
+                        'global': False, 'nfiles': 1}
     elif idx == 6:
         # timestamp look-alikes whose FIELDS overflow datetime() (a seconds /
         # year field of 20 digits under a matcher with fields of any width):
@@ -221,7 +242,7 @@ def fixed_case(rng, base, idx):
 
 
 def make_case(rng, base, idx, big):
-    if idx in (1, 2, 3, 4, 5, 6):
+    if idx in (1, 2, 3, 4, 5, 6, 7):
         return fixed_case(rng, base, idx)
     data, cls = hostile(rng, big)
     if data[:2] == b'\x1f\x8b':
